@@ -751,7 +751,7 @@ def _handle(req: tuple) -> Any:
         thorough = req[1]
         hist = list(corpus())
         hist += fault_sweeps(r, 60 if thorough else 8)
-        for _ in range(2000 if thorough else 170):
+        for _ in range(1600 if thorough else 160):
             hist.append(gen_history(r, 10 if thorough else 6))
         return hist
     if req[0] == "matterfresh":
@@ -2560,7 +2560,7 @@ def _main(chk: C.Check, pristine: Pristine) -> None:
 
     # partials edited on disk behind a CachingFileSystemLoader(auto_reload=True)
     n_fs = n_fs_edits_seen = n_fs_back = 0
-    for _ in range(300 if thorough else 18):
+    for _ in range(220 if thorough else 18):
         sc = fs_scenario(r)
         last_by_name: dict[str, tuple] = {}
         for st in run_fs_scenario(sc):
@@ -2586,7 +2586,7 @@ def _main(chk: C.Check, pristine: Pristine) -> None:
                           "replay": {"fs_render": st["name"], "files": srcs, "implementation": st["obs"]}})
     # several search paths: overrides added to / removed from earlier directories
     n_sh = n_sh_changed = 0
-    for si in range(300 if thorough else 18):
+    for si in range(220 if thorough else 18):
         sc = SHADOW_WITNESS if si == 0 else shadow_scenario(r)
         for st in run_shadow_scenario(sc):
             n_sh += 1
@@ -2614,7 +2614,7 @@ def _main(chk: C.Check, pristine: Pristine) -> None:
 
     # overlapping async loads on a cold caching loader, different globals per task
     n_conc = n_conc_collide = 0
-    for _ in range(300 if thorough else 28):
+    for _ in range(220 if thorough else 28):
         sc = conc_scenario(r)
         res = run_conc_scenario(sc)
         for wi, (tasks, outs) in enumerate(zip(sc["waves"], res)):
@@ -2642,7 +2642,7 @@ def _main(chk: C.Check, pristine: Pristine) -> None:
                                          "templates": {n: src_of(p) for n, p in sc["store"]}}})
     # choice loaders whose delegates fail transiently: a faulty load fails and leaves nothing behind
     n_choice = n_choice_fired = n_choice_dup = 0
-    for _ in range(300 if thorough else 24):
+    for _ in range(220 if thorough else 24):
         sc = choice_scenario(r)
         for res in run_choice_scenario(sc):
             st, obs = res["step"], res["obs"]
@@ -2678,10 +2678,10 @@ def _main(chk: C.Check, pristine: Pristine) -> None:
     dist["choice-loader-fault-free-steps-on-duplicate-names"] = n_choice_dup
     dist["concurrent-tasks"] = n_conc
     dist["concurrent-cold-waves-loading-one-name-twice"] = n_conc_collide
-    n_matter = matter_stream(chk, pristine, r, 3 if thorough else 1)
+    n_matter = matter_stream(chk, pristine, r, 2 if thorough else 1)
     n_pristine += n_matter
     dist["matter-renders"] = n_matter
-    n_raw, n_raw_fail = raw_stream(chk, pristine, r, 8 if thorough else 3)
+    n_raw, n_raw_fail = raw_stream(chk, pristine, r, 4 if thorough else 2)
     n_pristine += n_raw
     dist["raw-sources-run"] = n_raw
     dist["raw-from_string-failures"] = n_raw_fail
